@@ -41,6 +41,8 @@ const (
 	opReopen   = "reopen" // A: 0 snapshot, 1 rescan (snapshot deleted), 2 unusable snapshot
 	opPGC      = "pgc"
 	opIGC      = "igc"
+	opReBits   = "rebits"   // close, reopen with index bit size A (translation)
+	opMismatch = "mismatch" // close, try to open with another file size (A: 1 index, 2 primary; B: size), reopen properly
 )
 
 // SeqCase is a sequential history on one store.
@@ -69,6 +71,10 @@ type SeqStats struct {
 	ReadAfterGC      bool
 	GCKinds          map[string]bool
 	GCErrors         []string // error returns of GC cycles (not violations by themselves)
+	Translations     int
+	TranslatedNT     bool // a translation of >=6 keys, >=2 sharing a bucket afterwards, from >=2 index files
+	BitPairs         []string
+	Mismatches       int
 }
 
 // seqOpts selects optional behaviour of the runner.
@@ -78,9 +84,11 @@ type seqOpts struct {
 	AfterQuiet    func(r *seqRunner, step int, what string) *Violation
 	AfterClose    func(r *seqRunner, step int) *Violation // called with the store closed
 	Epilogue      func(r *seqRunner, step int) *Violation // runs after the last op, before the final read-back
-	FlushBeforeGC bool                                    // every GC action is preceded by a Flush
-	FixedLowUse   int                                     // >0: primary GC always uses this threshold
-	TrackGC       bool                                    // hash the directory around GC cycles
+	Before        func(r *seqRunner, step int, op Op)
+	After         func(r *seqRunner, step int, op Op, failed bool) *Violation
+	FlushBeforeGC bool // every GC action is preceded by a Flush
+	FixedLowUse   int  // >0: primary GC always uses this threshold
+	TrackGC       bool // hash the directory around GC cycles
 	KeepDir       bool
 	NoFinalIter   bool
 	Points        *pointCounter // counts named points passed during the run
@@ -100,6 +108,7 @@ type seqRunner struct {
 	workSinceOpen    bool
 	dirtyForReopen   bool
 	gcSinceRead      bool
+	aux              interface{} // scratch space of the property-specific callbacks
 }
 
 var digitsRE = regexp.MustCompile(`[0-9]+`)
@@ -160,7 +169,15 @@ func runSeq(c SeqCase, o seqOpts) (st SeqStats, v *Violation) {
 			continue
 		}
 		i, op := i, op
+		if o.Before != nil {
+			o.Before(r, i, op)
+		}
 		v = guard(i, op.K, func() *Violation { return r.step(i, op) })
+		if o.After != nil {
+			if v2 := o.After(r, i, op, v != nil); v == nil {
+				v = v2
+			}
+		}
 		if v != nil {
 			return r.stats, v
 		}
@@ -292,6 +309,10 @@ func (r *seqRunner) step(i int, op Op) *Violation {
 		return r.doPrimaryGC(i, op)
 	case opIGC:
 		return r.doIndexGC(i, op)
+	case opReBits:
+		return r.doReBits(i, op)
+	case opMismatch:
+		return r.doMismatch(i, op)
 	}
 	panic(infraError{fmt.Errorf("unknown op kind %q", op.K)})
 }
@@ -732,4 +753,104 @@ func (r *seqRunner) doIndexGC(i int, op Op) *Violation {
 		return r.o.AfterQuiet(r, i, "igc")
 	}
 	return nil
+}
+
+func (r *seqRunner) doReBits(i int, op Op) *Violation {
+	newBits := uint8(op.A)
+	if newBits < 8 || newBits > 24 {
+		newBits = 8 + uint8(op.A%17)
+	}
+	oldBits := r.c.Cfg.Bits
+	if v := r.closeStore(i, opReBits); v != nil {
+		return v
+	}
+	nIdx := len(numberedFiles(r.dir, idxBase))
+	r.c.Cfg.Bits = newBits
+	s, err := openStore(r.dir, r.c.Cfg)
+	if err != nil {
+		return viol("rebits-open-error|rebits|"+errClass(err), i, "reopen with %d instead of %d index bits failed: %v", newBits, oldBits, err)
+	}
+	r.s = s
+	if newBits != oldBits {
+		r.stats.Translations++
+		r.stats.BitPairs = append(r.stats.BitPairs, fmt.Sprintf("%d->%d", oldBits, newBits))
+		buckets := map[uint32]int{}
+		shared := false
+		for d := range r.model {
+			b := bucketOf([]byte(d), newBits)
+			buckets[b]++
+			if buckets[b] >= 2 {
+				shared = true
+			}
+		}
+		if len(r.model) >= 6 && shared && nIdx >= 2 {
+			r.stats.TranslatedNT = true
+		}
+	}
+	r.flushedSinceRead = true
+	for d := range r.model {
+		r.everFlushed[d] = true
+	}
+	if v := r.checkAll(i, opReBits); v != nil {
+		return v
+	}
+	if v := r.checkIter(i, opReBits); v != nil {
+		return v
+	}
+	if r.o.AfterQuiet != nil {
+		return r.o.AfterQuiet(r, i, "rebits")
+	}
+	return nil
+}
+
+func (r *seqRunner) doMismatch(i int, op Op) *Violation {
+	which := op.A
+	if which == 2 && r.c.Cfg.Primary != store.MultihashPrimary {
+		which = 1
+	}
+	if v := r.closeStore(i, opMismatch); v != nil {
+		return v
+	}
+	wrong := r.c.Cfg
+	size := uint32(op.B)
+	if which == 1 {
+		// An index file size of 0 means "whatever the existing index uses"
+		// and is not a mismatch.
+		if size == 0 || effectiveSize(size) == effectiveSize(wrong.IdxSize) {
+			size = uint32(effectiveSize(wrong.IdxSize)/2 + 7)
+		}
+		wrong.IdxSize = size
+	} else {
+		if effectiveSize(size) == effectiveSize(wrong.PrimSize) {
+			size = uint32(effectiveSize(wrong.PrimSize)/2 + 7)
+		}
+		wrong.PrimSize = size
+	}
+	s, err := openStore(r.dir, wrong)
+	if err == nil {
+		s.Close()
+		return viol("mismatch-accepted|mismatch|", i, "open with a different %s file size (%d) succeeded", map[int]string{1: "index", 2: "primary"}[which], size)
+	}
+	var ie types.ErrIndexWrongFileSize
+	var pe types.ErrPrimaryWrongFileSize
+	if which == 1 && !errors.As(err, &ie) {
+		return viol("mismatch-wrong-error|mismatch|index", i, "open with index file size %d returned %v, want ErrIndexWrongFileSize", size, err)
+	}
+	if which == 2 && !errors.As(err, &pe) {
+		return viol("mismatch-wrong-error|mismatch|primary", i, "open with primary file size %d returned %v, want ErrPrimaryWrongFileSize", size, err)
+	}
+	r.stats.Mismatches++
+	s, err = openStore(r.dir, r.c.Cfg)
+	if err != nil {
+		return viol("mismatch-reopen-error|mismatch|"+errClass(err), i, "open with the original settings after a refused open failed: %v", err)
+	}
+	r.s = s
+	r.flushedSinceRead = true
+	for d := range r.model {
+		r.everFlushed[d] = true
+	}
+	if v := r.checkAll(i, opMismatch); v != nil {
+		return v
+	}
+	return r.checkIter(i, opMismatch)
 }
